@@ -42,8 +42,9 @@ func (pad iso9797M3Padding) Pad(src []byte) []byte {
 	}
 
 	tail = head[srcLen+pad.BlockSize():]
-	clear(head[:pad.BlockSize()])
+	// move the data first: head may alias src when src has spare capacity
 	copy(head[pad.BlockSize():], src)
+	clear(head[:pad.BlockSize()])
 	if overhead > 0 {
 		clear(tail)
 	}
